@@ -193,7 +193,8 @@ func c07CheckComponents(p *projgen.Project, doc map[string]any, v string, add fu
 			if schemaType(s) != wt {
 				add("enum-type", "%s has type %v, the Go base type is %s", name, s["type"], d.Base)
 			}
-			if !sameStrings(stringSet(s["enum"]), c07ExpectedEnumValues(d)) {
+			// as value sets: two constants may share a value, and the statement does not say whether it is then listed once or twice
+			if !sameStrings(dedupe(stringSet(s["enum"])), dedupe(c07ExpectedEnumValues(d))) {
 				add("enum-values", "%s lists %v, the constants declared with that type are %v", name, stringSet(s["enum"]), c07ExpectedEnumValues(d))
 			}
 		case "alias":
@@ -525,4 +526,14 @@ func c07StripProps(schema any, names map[string]bool) any {
 		return out
 	}
 	return schema
+}
+
+func dedupe(sorted []string) []string {
+	var out []string
+	for i, v := range sorted {
+		if i == 0 || v != sorted[i-1] {
+			out = append(out, v)
+		}
+	}
+	return out
 }
